@@ -22,6 +22,8 @@
 //   peer dht=<0|1> ext=<0|1> v6seen=<0|1>              -> port=<n|none> ext0=<ver>,<port>,<v6> | ext0=none
 //   incoming                                           -> offered=<0|1> accepted=<0|1>
 //   incoming-swap   (the torrent is swapped in for an unproxied twin mid-handshake) -> offered=1 accepted=<0|1>
+//   readd | readd-deleted   (AddTorrent of a hash that is running / was just unlisted) -> dht …
+//   route kind=<k> proxy=<class> direct=<0|1>          -> direct=<0|1>   (proxy-string classes x outbound kinds)
 //   realtick t= w= d= p= phase=<n>                     -> tr=<0|1> p4=<n> p6=<n>
 package main
 
@@ -52,6 +54,7 @@ import (
 	"github.com/jech/storrent/protocol"
 	"github.com/jech/storrent/tor"
 	"github.com/jech/storrent/tracker"
+	"github.com/jech/storrent/webseed"
 
 	"verifharness/vhlib"
 )
@@ -1065,6 +1068,268 @@ func stepIncomingSwap(c *vhlib.Ctx, tc *tcase) {
 	c.Count("incoming-swap", fmt.Sprintf("p=%v %s", tc.proxied, obs), true)
 }
 
+// stepReadd: AddTorrent is called again for the hash of the running torrent (a freshly built
+// *Torrent, carrying the global defaults): it must fail with ErrExist without any outbound
+// action - the running torrent's settings are the ones in force for this hash.
+// With deleted=true the hash has just been unlisted: the new torrent is added with the global
+// defaults and announces accordingly (then it is removed and the case's torrent re-listed).
+func stepReadd(c *vhlib.Ctx, tc *tcase, deleted bool, defaults conf) {
+	op := "readd"
+	if deleted {
+		op = "readd-deleted"
+		tor.VerifDel(tc.t.Hash)
+	}
+	dup, err := newNamedTorrent(tc.name, tc.proxied, true, false, false)
+	if err != nil || !bytes.Equal(dup.t.Hash, tc.t.Hash) {
+		c.Emit(op, "error dup")
+		if deleted {
+			tor.VerifAdd(tc.t)
+		}
+		return
+	}
+	ctx, cancel := context.WithCancel(context.Background())
+	_, aerr := tor.AddTorrent(ctx, dup.t)
+	cs := takeDht(tc.t.Hash)
+	if aerr == nil {
+		dup.t.Kill(context.Background())
+	}
+	cancel()
+	dup.cancel()
+	dup.releaseTrackers(false)
+	if deleted {
+		tor.VerifAdd(tc.t)
+	}
+	obs := dhtStr(cs)
+	if deleted != (aerr == nil) {
+		obs += fmt.Sprintf(" err=%v", aerr)
+	}
+	c.Emit(op, obs)
+	// the settings in force for this hash: the running torrent's; for a re-add after
+	// deletion the new torrent's, i.e. the global defaults
+	saved := tc.cur
+	if deleted {
+		tc.cur = defaults
+	}
+	tc.checkDht(c, cs, op)
+	tc.cur = saved
+	c.Count(op, fmt.Sprintf("%s %s", tc.cur, obs), len(cs) > 0)
+}
+
+// ---------------------------------------------------------------- proxy-string classes x outbound kinds
+type proxyClass struct{ name, value string }
+
+var routeKinds = []string{"ws-getright", "ws-hoffman", "http-tracker", "udp-tracker", "gettorrent", "peer-dial"}
+
+type dstListeners struct {
+	mu      sync.Mutex
+	hits    map[string]int // kind/tag -> direct arrivals
+	http    *httptest.Server
+	udp     *net.UDPConn
+	tcp     net.Listener
+	current string
+}
+
+func (d *dstListeners) hit() {
+	d.mu.Lock()
+	d.hits[d.current]++
+	d.mu.Unlock()
+}
+
+func newDst() *dstListeners {
+	d := &dstListeners{hits: map[string]int{}}
+	d.http = httptest.NewServer(http.HandlerFunc(func(w http.ResponseWriter, r *http.Request) {
+		d.hit()
+		http.Error(w, "direct", http.StatusNotFound)
+	}))
+	if u, err := net.ListenUDP("udp4", &net.UDPAddr{IP: net.IPv4(127, 0, 0, 1)}); err == nil {
+		d.udp = u
+		go func() {
+			buf := make([]byte, 2048)
+			for {
+				if _, _, err := u.ReadFromUDP(buf); err != nil {
+					return
+				}
+				d.hit()
+			}
+		}()
+	}
+	// peers must be global unicast: listen on a non-loopback address of this machine
+	if addrs, err := net.InterfaceAddrs(); err == nil {
+		for _, a := range addrs {
+			if ipn, ok := a.(*net.IPNet); ok && ipn.IP.To4() != nil && ipn.IP.IsGlobalUnicast() {
+				if l, err := net.Listen("tcp4", net.JoinHostPort(ipn.IP.String(), "0")); err == nil {
+					d.tcp = l
+					go func() {
+						for {
+							conn, err := l.Accept()
+							if err != nil {
+								return
+							}
+							d.hit()
+							conn.Close()
+						}
+					}()
+					break
+				}
+			}
+		}
+	}
+	return d
+}
+
+func (d *dstListeners) close() {
+	d.http.Close()
+	if d.udp != nil {
+		d.udp.Close()
+	}
+	if d.tcp != nil {
+		d.tcp.Close()
+	}
+}
+
+// routeAction performs one outbound action of the given kind for a torrent whose proxy
+// setting is `proxy`, through the real code, and waits for it to finish (or fail).
+func routeAction(d *dstListeners, kind, proxy string) (skipped bool) {
+	serial++
+	name := fmt.Sprintf("c18-route-%d", serial)
+	t, err := tor.ReadTorrent(proxy, bytes.NewReader(metainfo(name, wsURL, 1)))
+	if err != nil {
+		return true
+	}
+	t.Log.SetOutput(io.Discard)
+	tor.VerifInit(t, 256, uint64(serial))
+	defer close(t.Done)
+	ctx, cancel := context.WithTimeout(context.Background(), 4*time.Second)
+	defer cancel()
+	waitTracker := func(tr tracker.Tracker) {
+		t.VerifSetTrackers([][]tracker.Tracker{{tr}})
+		tor.VerifTrackerAnnounce(ctx, t) // go trackerAnnounceSingle(ctx, t, tr): passes t.proxy
+		deadline := time.Now().Add(5 * time.Second)
+		for time.Now().Before(deadline) {
+			// the announce sets the tracker's time first: afterwards it is Idle or Error
+			if st, _ := tr.GetState(); st == tracker.Idle || st == tracker.Error {
+				return
+			}
+			time.Sleep(200 * time.Microsecond)
+		}
+	}
+	switch kind {
+	case "ws-getright":
+		ws, ok := webseed.New(d.http.URL+"/wsgr/", true).(*webseed.GetRight)
+		if !ok {
+			return true
+		}
+		tor.VerifWebseedGR(ctx, ws, t, 0, 0, 16384)
+	case "ws-hoffman":
+		ws, ok := webseed.New(d.http.URL+"/wsh", false).(*webseed.Hoffman)
+		if !ok {
+			return true
+		}
+		tor.VerifWebseedH(ctx, ws, t, 0, 0, 16384)
+	case "http-tracker":
+		waitTracker(tracker.New(d.http.URL + "/announce"))
+	case "udp-tracker":
+		if d.udp == nil {
+			return true
+		}
+		waitTracker(tracker.New("udp://" + d.udp.LocalAddr().String() + "/announce"))
+		time.Sleep(2 * time.Millisecond) // a datagram on its way to our own socket
+	case "gettorrent":
+		tor.GetTorrent(ctx, proxy, d.http.URL+"/file.torrent")
+	case "peer-dial":
+		if d.tcp == nil {
+			return true
+		}
+		ap, err := netip.ParseAddrPort(d.tcp.Addr().String())
+		if err != nil {
+			return true
+		}
+		// once connected, Client() talks to the torrent's event loop, which does not run
+		// here: wait for the dial's verdict (an error, or the connection arriving)
+		done := make(chan struct{})
+		go func() {
+			tor.DialClient(ctx, t, ap, crypto.DefaultOptions(false, false))
+			close(done)
+		}()
+		key := d.current
+		deadline := time.Now().Add(4 * time.Second)
+		for time.Now().Before(deadline) {
+			d.mu.Lock()
+			n := d.hits[key]
+			d.mu.Unlock()
+			if n > 0 {
+				break
+			}
+			select {
+			case <-done:
+				deadline = time.Now()
+			default:
+				time.Sleep(200 * time.Microsecond)
+			}
+		}
+		time.Sleep(2 * time.Millisecond) // the accept loop's turn
+	}
+	return false
+}
+
+func runRoute(c *vhlib.Ctx, d *dstListeners, kind string, pc proxyClass) {
+	c.NewCase()
+	d.mu.Lock()
+	d.current = kind + "/" + pc.name
+	d.mu.Unlock()
+	if routeAction(d, kind, pc.value) {
+		c.Note("route: " + kind + " not available here")
+		return
+	}
+	d.mu.Lock()
+	n := d.hits[kind+"/"+pc.name]
+	d.current = "idle"
+	d.mu.Unlock()
+	c.Emit(fmt.Sprintf("route kind=%s proxy=%s direct=%s", kind, pc.name, b01(n > 0)), "direct="+b01(n > 0))
+	if pc.value != "" && n > 0 {
+		c.Violate("direct-connection-while-proxied:"+kind+":"+pc.name,
+			fmt.Sprintf("with the proxy setting %q (non-empty) %d direct connection(s)/datagram(s) from us reached the %s destination", pc.value, n, kind), c.Case())
+	}
+	if pc.value == "" && n == 0 {
+		c.Note("route: control (no proxy) did not reach the " + kind + " destination")
+	}
+	c.Count("route/"+kind, pc.name+fmt.Sprintf(" direct=%v", n > 0), true)
+}
+
+func proxyClasses() []proxyClass {
+	return []proxyClass{
+		{"none", ""},
+		{"reachable", wsURL},
+		{"unreachable-http", "http://127.0.0.1:1"},
+		{"unreachable-socks", "socks5://127.0.0.1:1"},
+		{"unparsable-blank", "http://127.0.0.1:9050 "},
+		{"unparsable-bracket", "http://[::1:9050"},
+		{"unparsable-escape", "http://%zz:9050"},
+		{"no-scheme", "127.0.0.1:9050"},
+		{"no-scheme-name", "localhost:9050"},
+		{"no-scheme-slashes", "//127.0.0.1:1"},
+		{"unknown-scheme", "foo://127.0.0.1:1"},
+		{"no-host", "http://"},
+		{"port-zero", "http://127.0.0.1:0"},
+	}
+}
+
+func runRoutes(c *vhlib.Ctx, only map[string]bool) {
+	d := newDst()
+	defer d.close()
+	for _, pc := range proxyClasses() {
+		for _, k := range routeKinds {
+			if only != nil && !only[k+"/"+pc.name] {
+				continue
+			}
+			if len(c.Rep.Violations) >= 60 {
+				return
+			}
+			runRoute(c, d, k, pc)
+		}
+	}
+}
+
 // ---------------------------------------------------------------- cases
 func setDefaults(gt, gw bool, gd int) {
 	config.DefaultUseTrackers = gt
@@ -1089,6 +1354,13 @@ func atoi(s string) int { n, _ := strconv.Atoi(s); return n }
 func runLines(c *vhlib.Ctx, lines []string) {
 	var tc *tcase
 	skipping := false
+	var defaults conf
+	routes := map[string]bool{}
+	defer func() {
+		if len(routes) > 0 {
+			runRoutes(c, routes)
+		}
+	}()
 	defer func() {
 		if tc != nil {
 			tc.finish(c)
@@ -1113,6 +1385,7 @@ func runLines(c *vhlib.Ctx, lines []string) {
 			}
 			c.NewCase()
 			setDefaults(m["gt"] == "1", m["gw"] == "1", atoi(m["gd"]))
+			defaults = conf{m["gt"] == "1", m["gw"] == "1", atoi(m["gd"])}
 			var err error
 			tc, err = newTorrent(m["p"] == "1", false, m["m"] == "1")
 			if err != nil {
@@ -1124,6 +1397,10 @@ func runLines(c *vhlib.Ctx, lines []string) {
 			if tc.cur != (conf{m["gt"] == "1", m["gw"] == "1", atoi(m["gd"])}) {
 				c.Violate("defaults-not-applied", "new torrent's settings differ from the global defaults: "+tc.cur.String(), c.Case())
 			}
+			continue
+		}
+		if ws[0] == "route" {
+			routes[m["kind"]+"/"+m["proxy"]] = true
 			continue
 		}
 		if ws[0] == "realtick" || skipping {
@@ -1160,6 +1437,10 @@ func runLines(c *vhlib.Ctx, lines []string) {
 			stepIncoming(c, tc)
 		case "incoming-swap":
 			stepIncomingSwap(c, tc)
+		case "readd":
+			stepReadd(c, tc, false, defaults)
+		case "readd-deleted":
+			stepReadd(c, tc, true, defaults)
 		default:
 			c.Emit(l, "bad-op")
 		}
@@ -1204,7 +1485,7 @@ func genCase(c *vhlib.Ctx, p bool, g conf, seq []conf, full bool, magnet bool) [
 		}
 		ls = append(ls, fmt.Sprintf("setconf %s", nc))
 		// whatever is in flight finishes, in either way, before anything is concluded
-		ls = append(ls, "settle fail="+b01(c.R.Bool()))
+		ls = append(ls, "settle fail="+b01(c.R.Bool()), "readd")
 		probe()
 	}
 	if metaAt == len(seq) {
@@ -1214,8 +1495,9 @@ func genCase(c *vhlib.Ctx, p bool, g conf, seq []conf, full bool, magnet bool) [
 		ls = append(ls, "traffic")
 	}
 	ls = append(ls, "settle fail="+b01(c.R.Bool()), "slowtick stale=0", "settle fail="+b01(c.R.Bool()))
+	ls = append(ls, "readd")
 	if full {
-		ls = append(ls, "incoming", "incoming-swap")
+		ls = append(ls, "incoming", "incoming-swap", "readd-deleted")
 	}
 	return ls
 }
@@ -1355,7 +1637,9 @@ func main() {
 		lines = append(lines, genCase(c, c.R.Bool(), cs[c.R.Intn(len(cs))], seq, c.R.Chance(25), c.R.Chance(25))...)
 	}
 	runLines(c, lines)
-	// (4) real event loops and the real slow ticker
+	// (4) proxy-string classes x outbound kinds
+	runRoutes(c, nil)
+	// (5) real event loops and the real slow ticker
 	phases := 2
 	if c.Tier == "thorough" {
 		phases = 4
